@@ -115,6 +115,17 @@ def exclstep(prof, quick, thorough):
 
 
 CONFIG = {
+    "C15": {
+        "rule": ("rapid stepper over bigbuff.Notifier in a synctest bubble: 0-6 subscriptions over 1-3 keys (string, int, struct, nil key) with target channels of assorted element types "
+                 "(int, string, any, error, *T, []byte; unbuffered or cap 1; send-only views), with no ctx / live ctx / already cancelled ctx / SubscribeCancel; rules publish(key, value in ints, "
+                 "strings, typed and untyped nil, errors; with/without publish ctx) launched, receive(sub), cancelSub, cancelPublish, subscribe/unsubscribe (parked behind a publish in flight, "
+                 "incl. Go's writer preference that then parks later publishes), duplicate subscribe, unmatched unsubscribe. Oracle: eligible set E = subscriptions of the key whose element type "
+                 "accepts the value and whose ctx is live; each member receives the value exactly once unless its ctx is cancelled first; non-members receive nothing (non-blocking extra receive on "
+                 "every target at every quiescent point); Publish pending exactly while a member is neither delivered nor cancelled and the publish ctx is live; nothing after Unsubscribe; "
+                 "duplicate Subscribe / unmatched Unsubscribe panic and leave later deliveries unchanged; no goroutine left. non-trivial = a publish with |E|>=3 where a context-guarded member is "
+                 "cancelled while others are pending and a later delivery follows, or a nil-valued publish with |E|>=1; distinct = hash of the op trace."),
+        "jobs": [{"name": "notifier", "test": "TestC15Notifier", "checks": {"quick": 8000, "thorough": 240000}, "shards": {"quick": 8, "thorough": 16}, "env": {"VKIT_PROFILE": "C15"}}],
+    },
     "C16": {
         "rule": ("rapid engine over CombineContext / ConflatedContext / ChainAfterFunc in a synctest bubble: 0-5 input contexts each carrying a distinct value (std cancel, deadline in virtual "
                  "time, custom Context type without AfterFunc support, child of another input, never-cancellable), a drawn subset already cancelled at construction, nil entries, duplicates, "
@@ -262,6 +273,7 @@ CONFIG = {
                  dict(exclstep("C12", 6000, 200000), name="leak_exclusive"),
                  leakjob("leak_context", "TestC16Context", 8000, 300000, "C16"),
                  leakjob("leak_workers", "TestC14Workers", 4000, 150000, "C14"),
+                 leakjob("leak_notifier", "TestC15Notifier", 3000, 100000, "C15"),
                  leakjob("leak_worker", "TestC17Worker", 6000, 200000, "C17"),
                  leakjob("leak_retry", "TestC18Retry", 6000, 200000, "C18"),
                  leakjob("leak_attempt", "TestC20Attempt", 6000, 200000, "C20")],
